@@ -1,14 +1,15 @@
 // h_c03: crash-recovery harness for C03 (acknowledged writes survive a process crash).
 //
 // The parent generates workloads; for each it re-executes ITSELF as a child process
-// (-mode child) that runs the workload against a real tsdb.DB directory.  A first, uncrashed
-// run (dry run) logs every c03.* verifhook hit: this enumerates the persistence boundaries
-// (site, n-th hit).  For each chosen boundary a fresh child runs the same workload and exits
-// (137) at that hit; additionally children are SIGKILLed at random times.  The parent reopens
-// the directory with the same options, queries everything and writes, per crash, a Coq case:
-// the model operations (derived from the workload and the dry run's log), the number of
-// persistence steps completed, the acknowledgement state from the child's log and the
-// recovered samples.
+// (-mode child) that runs the workload against a real tsdb.DB directory.  The reference run is
+// not crashed: it logs every c03.* verifhook hit (this enumerates the persistence boundaries
+// (site, n-th hit)), the acknowledgements, and at the selected hits copies the directory from
+// inside the hook - the state a process kill at that hit leaves behind.  Additionally a few
+// fresh children per workload really exit (137) inside a hook, and a few are SIGKILLed at a
+// random time.  The parent reopens every such directory with the same options, queries
+// everything and writes, per crash, a Coq case: the model operations (derived from the workload
+// and the reference run's log), the number of persistence steps completed, the acknowledgement
+// state from the child's log and the recovered samples.
 package main
 
 import (
